@@ -404,7 +404,8 @@ def step (d : DState) (line : String) : DState × String :=
           | none => (acc.1, acc.2 ++ [sub.trimAscii.toString ++ " -> bad-op"])
       | [] => acc) (d, [])
     let quiet := r.1.m.dialing.isEmpty && r.1.m.opening.isEmpty && r.1.m.futs.isEmpty
-    (r.1, ledgerStr r.1 ++ " | " ++ joinWith " | " r.2 ++ (if quiet then "" else " !not-settled"))
+    (r.1, ledgerStr r.1 ++ " | " ++ joinWith " | " r.2 ++ (if quiet then "" else " !not-settled:dialing=" ++ natList r.1.m.dialing ++ ":opening=" ++
+      natList (r.1.m.opening.map (·.1)) ++ ":futs=" ++ natList (r.1.m.futs.map (·.peer))))
   | _ =>
     if !d.ready then (d, "bad-op") else
     match runPrimitive d ts obs with
